@@ -208,3 +208,38 @@ def apalache_lemmas(outdir, timeout=300):
     if "The outcome is: Error" in out:
         return "counterexample", time.time() - t0
     return "not discharged", time.time() - t0
+
+
+def apalache_check(module, init, inv, length, outdir, timeout=600):
+    """apalache-mc check --init=<init> --next=Next --inv=<inv> --length=<length> on spec/<module>.tla.
+    Returns (status, wall seconds) with status 'proved' | 'counterexample' | 'not discharged'."""
+    import shutil
+    exe = shutil.which("apalache-mc")
+    if exe is None:
+        return "not discharged", 0.0
+    t0 = time.time()
+    try:
+        p = subprocess.run([exe, "check", "--init=" + init, "--next=Next", "--inv=" + inv, "--length=%d" % length,
+                            "--out-dir=" + os.path.join(outdir, "apalache"), module + ".tla"], cwd=SPEC_DIR,
+                           stdout=subprocess.PIPE, stderr=subprocess.STDOUT, universal_newlines=True, timeout=timeout)
+    except subprocess.TimeoutExpired:
+        return "not discharged", time.time() - t0
+    if "The outcome is: NoError" in p.stdout:
+        return "proved", time.time() - t0
+    if "The outcome is: Error" in p.stdout:
+        return "counterexample", time.time() - t0
+    return "not discharged", time.time() - t0
+
+
+def apalache_inductive(ctx, machines):
+    """Thorough tier: base and step of the inductive invariant of spec/Inductive.tla (unbounded counters of the bounded
+    models).  A counterexample is a violation of the specification's own claim; a stalled solver is only reported."""
+    if ctx.quick():
+        return
+    base, w0 = apalache_check("Inductive", "Init", "IndInv", 0, ctx.outdir)
+    step, w1 = apalache_check("Inductive", "IndInit", "IndInv", 1, ctx.outdir)
+    ctx.notes["apalache_Inductive"] = {"base (Init => IndInv)": base, "step (IndInv /\\ Next => IndInv')": step,
+                                       "wall_s": round(w0 + w1, 1), "machines_relevant_here": machines}
+    if "counterexample" in (base, step):
+        ctx.violation("Inductive", "apalache:counterexample", {"action": "IndInv"},
+                      {"see": "apalache-mc check --init=IndInit --next=Next --inv=IndInv --length=1 Inductive.tla", "base": base, "step": step})
